@@ -345,6 +345,33 @@ def main():
                         else:
                             oracle_fail_examples.append(rec)
                     continue
+                if rec["op"].startswith("info:"):
+                    # hypothesis / distribution measurements evaluated by the model driver: tallied, never judged
+                    key = rec["op"][5:]
+                    tally = stats.setdefault("info", {}).setdefault(key, {})
+                    val = lm.strip()[:80]
+                    tally[val] = tally.get(val, 0) + 1
+                    continue
+                if rec["op"].startswith("oracle:"):
+                    # property oracle evaluated by the model driver on the implementation's output
+                    # (`r` = the verdict the property demands); "skip" = outside the quantifier
+                    stats["oracle_cases"] += 1
+                    try:
+                        mv = json.loads(lm)
+                    except Exception:
+                        mv = {"driver_error": lm[:200]}
+                    if mv == "skip":
+                        stats["oracle_skipped"] = stats.get("oracle_skipped", 0) + 1
+                    elif mv != rec["r"]:
+                        stats["oracle_failures"] += 1
+                        fp = rec["a"].get("fp", rec["op"])
+                        hit = next((k for k in known if k["fingerprint"] == fp), None)
+                        if hit:
+                            known_hits[fp] = known_hits.get(fp, 0) + 1
+                        else:
+                            a = {k: v for k, v in rec["a"].items() if k not in ("tree",)}
+                            oracle_fail_examples.append({"name": rec["op"], "detail": {"fp": fp, "input": a, "demanded": rec["r"], "observed": mv}})
+                    continue
                 h = hashlib.sha1(lo.encode()).digest()[:8]
                 stats["distinct"].add(h)
                 stats["per_op"][rec["op"]] = stats["per_op"].get(rec["op"], 0) + 1
@@ -423,6 +450,8 @@ def main():
             "per_op": stats["per_op"],
             "oracle_cases": stats["oracle_cases"],
             "oracle_failures": stats["oracle_failures"],
+            "oracle_skipped_outside_quantifier": stats.get("oracle_skipped", 0),
+            "hypothesis_measurements": stats.get("info", {}),
             "known_finding_hits": known_hits,
             "model_disagreements": stats["model_disagreements"],
             "samples": samples or [{"note": "no sample captured"}],
